@@ -81,6 +81,27 @@ def distributions(quick):
     out.append(("hostile-literals", [[S1, P1, L('q"\\\n\t'), G1], [S1, P1, L("\U0001F600", lang="en"), D], [S1, P2, L("<&>", dt=EX + "dt"), G2]]))
     out.append(("dot-literals", [[S1, P1, L("wait . what"), G1], [S1, P1, L("x ."), GB], [S1, P2, L(" . "), G2], [S1, P2, L("Dr . No"), D], [S2, P1, L(" ."), G1], [S2, P2, L("a <urn:g> ."), G2]]))
     out.append(("empty-default", [T[0] + [G1], T[1] + [G2]]))
+    # one statement whose object is a "leaf" blank node (object of that statement only, never a subject), asserted in several graphs:
+    # the node the graphs share is still one node afterwards
+    LF = Bn("leaf")
+    for nm, gs in (("D+G1", [D, G1]), ("G1+G2", [G1, G2]), ("D+GB", [D, GB]), ("D+G1+G2", [D, G1, G2])):
+        out.append(("shared-leaf-bnode:" + nm, [[S1, P2, LF, g] for g in gs]))
+        out.append(("shared-leaf-bnode+more:" + nm, [[S1, P2, LF, g] for g in gs] + [T[0] + [gs[0]], [S2, P2, Bn("leaf2"), gs[-1]]]))
+    return out
+
+
+# prefixes that read like keywords of the Turtle family (GRAPH, PREFIX, BASE, a, true, false), bound next to the empty prefix, with graph
+# names, subjects and objects in their namespaces
+KW_NS = "http://example.org/graphs/"
+KW_PREFIXES = ["graph", "GRAPH", "Graph", "prefix", "PREFIX", "base", "BASE", "a", "true", "false", "graphs"]
+
+
+def keyword_prefix_datasets():
+    out = []
+    for kw in KW_PREFIXES:
+        qs = [[S1, P1, L("v"), I(KW_NS + "g1")], [I(KW_NS + "s"), P1, I(KW_NS + "o"), D], [I(KW_NS + "s"), I(KW_NS + "p"), L("w"), I(KW_NS + "g1")], T[0] + [G1]]
+        out.append(("kw-prefix:" + kw, qs, [[kw, KW_NS], ["", EX]]))
+        out.append(("kw-prefix-only:" + kw, qs, [[kw, KW_NS]]))
     return out
 
 
@@ -98,6 +119,9 @@ def run(out, tier, seed):
     for di, (name, qs) in enumerate(ds):
         for fi, fmt in enumerate(FORMATS):
             jobs.append({"cfg": {}, "events": [{"op": "roundtrip_ds", "fmt": fmt, "shape": name, "before": qs, "default_union": bool((di + fi) % 2)}]})
+    for name, qs, pf in keyword_prefix_datasets():
+        for fmt in FORMATS:
+            jobs.append({"cfg": {}, "events": [{"op": "roundtrip_ds", "fmt": fmt, "shape": name, "before": qs, "prefixes": pf, "default_union": False}]})
     sample = [qs for _, qs in rng.sample(ds, 14 if quick else 110)] + [[]]
     for a in sample:
         for b in sample:
